@@ -21,3 +21,23 @@ Definition charge_rel (c : zcase) : bool :=
   end.
 Fixpoint zids_where (f : zcase -> bool) (l : list zcase) : list N :=
   match l with [] => [] | c :: r => ((if f c then [zc_id c] else []) ++ zids_where f r)%list end.
+
+(* ---- mz.rs called directly ---- *)
+From CE Require Import Num NumFloat64 Mz.
+Record mzcase := mkMZ { mz_id : N; mz_m : float; mz_z : Z; mz_carrier : float; mz_mcr : float; mz_inv : float; mz_nm : float }.
+(* correspondence: the two conversions, bit for bit *)
+Definition mz_tie (c : mzcase) : bool :=
+  f_same (mass_charge_ratio NumF (mz_m c) (mz_z c) (mz_carrier c)) (mz_mcr c)
+  && f_same (neutral_mass NumF (mz_mcr c) (mz_z c) (mz_carrier c)) (mz_inv c)
+  && f_same (neutral_mass NumF (mz_m c) (mz_z c) (mz_carrier c)) (mz_nm c).
+(* the property, on the implementation's numbers: mass_charge_ratio is (m + z*carrier)/|z|, neutral_mass is mz*|z| - z*carrier,
+   and the second undoes the first (1e-12 relative to the magnitudes involved) *)
+Definition mz_holds (c : mzcase) : bool :=
+  let m := qf0 (mz_m c) in let z := inject_Z (mz_z c) in let az := inject_Z (Z.abs (mz_z c)) in let cr := qf0 (mz_carrier c) in
+  let scale := qabs m + qabs (z * cr) + 1 in
+  negb (Z.eqb (mz_z c) 0)
+  && q_close_abs (qf0 (mz_mcr c)) ((m + z * cr) / az) (eps12 * scale)
+  && q_close_abs (qf0 (mz_nm c)) (m * az - z * cr) (eps12 * scale * az)
+  && q_close_abs (qf0 (mz_inv c)) m (eps12 * scale).
+Fixpoint mzids_where (f : mzcase -> bool) (l : list mzcase) : list N :=
+  match l with [] => [] | c :: r => ((if f c then [mz_id c] else []) ++ mzids_where f r)%list end.
